@@ -277,6 +277,8 @@ struct HostWire {
 
 pub struct WireState {
     hosts: HashMap<String, HostWire>,
+    /// the smallest RTO a T3 timer can run with: min(rto_min, rto_initial) - until the first RTT sample the transport
+    /// uses rto_initial as it is, also when that is below rto_min
     rto_min_ms: f64,
     latency_ms: [f64; 2],
     /// streams whose chunks can be abandoned by the sender at any time (partial reliability)
@@ -557,7 +559,7 @@ pub async fn run(ctx: &Ctx) {
     }
 
     // wire oracle
-    let wire = Arc::new(Mutex::new(WireState { hosts: HashMap::new(), rto_min_ms: plan.knob("rto_min_ms", 200) as f64, latency_ms: [plan.latency_us[0] as f64 / 1000.0, plan.latency_us[1] as f64 / 1000.0], pr_streams: specs.iter().filter(|s| s.max_retransmits.is_some() || s.max_life.is_some()).map(|s| s.id).collect(), quiet_from: None, enabled: true }));
+    let wire = Arc::new(Mutex::new(WireState { hosts: HashMap::new(), rto_min_ms: (plan.knob("rto_min_ms", 200) as f64).min(plan.knob("rto_initial_ms", 3000) as f64), latency_ms: [plan.latency_us[0] as f64 / 1000.0, plan.latency_us[1] as f64 / 1000.0], pr_streams: specs.iter().filter(|s| s.max_retransmits.is_some() || s.max_life.is_some()).map(|s| s.id).collect(), quiet_from: None, enabled: true }));
     {
         let mut m = crate::monitor::StdMonitor::new(ctx.keys.clone());
         m.oracles.push(Box::new(SctpWireOracle(wire.clone())));
